@@ -44,6 +44,7 @@ class CThread:
         self.real = None
         self.steps = 0
         self.where = None             # last switch point label
+        self.in_yield = False
         self.last_release = 0         # sequence number of this thread's latest lock release
 
     def can_run(self):
@@ -161,10 +162,16 @@ class Scheduler:
             self._yield(t, label)
 
     def _yield(self, t, label):
-        t.where = label
-        t.steps += 1
-        self.sem.release()
-        t.sem.acquire()
+        if t.in_yield:          # re-entered from a finaliser (__del__) run by the GC inside the hand-over
+            return
+        t.in_yield = True
+        try:
+            t.where = label
+            t.steps += 1
+            self.sem.release()
+            t.sem.acquire()
+        finally:
+            t.in_yield = False
         if self.aborting:
             raise _Killed()
 
@@ -177,9 +184,15 @@ class Scheduler:
             raise RuntimeError("uncontrolled thread would block in a linesched shim (%s)" % label)
         if self.aborting:
             raise _Killed()
+        if t.in_yield:
+            raise RuntimeError("finaliser would block inside a linesched hand-over (%s)" % label)
         t.state, t.pred, t.deadline, t.where = "blocked", pred, deadline, label
-        self.sem.release()
-        t.sem.acquire()
+        t.in_yield = True
+        try:
+            self.sem.release()
+            t.sem.acquire()
+        finally:
+            t.in_yield = False
         t.deadline = None
         if self.aborting:
             raise _Killed()
